@@ -2,6 +2,7 @@ pub mod adversarial;
 pub mod c02;
 pub mod c03;
 pub mod c04;
+pub mod c07;
 pub mod c08;
 pub mod explore;
 pub mod honest;
@@ -15,6 +16,7 @@ pub fn all() -> Vec<Box<dyn Check>> {
         Box::new(c03::C03),
         Box::new(c04::C04),
         Box::new(explore::C05),
+        Box::new(c07::C07),
         Box::new(c08::C08),
         Box::new(explore::C09),
         Box::new(honest::C12),
